@@ -164,6 +164,7 @@ ArgsErased(e) ==
   ELSE IF e.op = "hash" THEN <<e.a.uid, e.a.mu, e.a.sigma>>
   ELSE IF e.op = "api" THEN <<e.what>>
   ELSE IF e.op = "cmp" THEN <<e.cmpop, EraseOwn(e.a, e.a.v), EraseOwn(e.b, e.a.v)>>
+  ELSE IF e.op = "deepcopy" THEN <<Erase(e.arg)>>
   ELSE <<>>
 
 \* permutations carried in aux: aux = [tp, mps]; new team k is base team tp[k], its member l is base member mps[k][l]
@@ -206,7 +207,7 @@ Relation(g, e, X) ==
 
     \* identical inputs (values, parameters, arguments) => identical outputs      [C14, C20, C19]
     [] role = "same" ->
-         IF ~(b.op = e.op /\ ArgsErased(b) = ArgsErased(e) /\ (b.op \in {"hash", "api", "cmp"} \/ ModelParams(b.model0) = ModelParams(e.model0)))
+         IF ~(b.op = e.op /\ ArgsErased(b) = ArgsErased(e) /\ (b.op \in {"hash", "api", "cmp", "deepcopy"} \/ ModelParams(b.model0) = ModelParams(e.model0)))
            THEN {"bind.group_same_inputs_differ"}
          ELSE IF OutErased(b) = OutErased(e) THEN {} ELSE {GP(e, "same_inputs_different_result")}
 
